@@ -142,7 +142,7 @@ func c14BurstCheck(c *core.Ctx, cases []c14Burst) []core.Outcome {
 		if len(early) > 0 {
 			e := early[0]
 			o.Fail = &core.Failure{Kind: "impl-violation", Key: "early-timeout:burst",
-				Summary: fmt.Sprintf("burst %d of %d goroutines released together %dms after the clock stopped: the match of goroutine %d (MatchTimeout=%dms, period %dms) returned a timeout error after %dµs (%d such calls in this burst) — its deadline was computed from the time the stopped clock had last stored", e.Burst, cs.G, cs.Idle/c14Ms, e.G, cs.D/c14Ms, cs.PeriodNs/c14Ms, e.El/1000, len(early)),
+				Summary:  fmt.Sprintf("burst %d of %d goroutines released together %dms after the clock stopped: the match of goroutine %d (MatchTimeout=%dms, period %dms) returned a timeout error after %dµs (%d such calls in this burst) — its deadline was computed from the time the stopped clock had last stored", e.Burst, cs.G, cs.Idle/c14Ms, e.G, cs.D/c14Ms, cs.PeriodNs/c14Ms, e.El/1000, len(early)),
 				Expected: fmt.Sprintf("no timeout error before roughly d (certainly not before d/4 = %dms)", cs.D/4/c14Ms), Got: fmt.Sprintf("timeout error after %dns", e.El)}
 		}
 	}
